@@ -18,6 +18,7 @@ type calleeInfo struct {
 	fc       *FuncContract
 	display  string
 	extFn    string
+	extraVars []*types.Var // local closure: read-only captured variables, passed as leading arguments
 }
 
 var purePkgs = map[string]bool{"utf8": true, "unicode": true, "strings": true, "strconv": true, "math": true, "errors": true, "path": true, "filepath": true, "utf16": true}
@@ -46,6 +47,11 @@ func (fx *FnCtx) resolveCallee(st *State, call *ast.CallExpr) *calleeInfo {
 		case *types.Var:
 			// call of a function-typed variable: keyed by its named type, then by name
 			ci.sig = o.Type().Underlying().(*types.Signature)
+			if k, ok := fx.closureOf[o]; ok {
+				// a local closure of this function (or of the enclosing function): "<Func>$<var>"
+				ci.keys = append(ci.keys, k)
+				ci.extraVars = fx.closureRO[k]
+			}
 			if n := typeBaseName(o.Type()); n != "" {
 				ci.keys = append(ci.keys, n)
 			}
@@ -147,6 +153,7 @@ func (fx *FnCtx) callStmt(st *State, call *ast.CallExpr) []outcome {
 	ci := fx.resolveCallee(st, call)
 	recv, back := fx.evalRecv(st, ci)
 	args := fx.evalArgs(st, call, ci.sig)
+	args = append(fx.closureArgs(st, ci, call), args...)
 	outs := fx.applyCall(st, ci, recv, args, call)
 	if back != nil {
 		for _, o := range outs {
@@ -156,6 +163,22 @@ func (fx *FnCtx) callStmt(st *State, call *ast.CallExpr) []outcome {
 		}
 	}
 	return outs
+}
+
+// closureArgs: the current values of the read-only captured variables of a local closure being called.
+func (fx *FnCtx) closureArgs(st *State, ci *calleeInfo, at ast.Node) []Val {
+	var out []Val
+	if ci.fc == nil || ci.key == "" || fx.pkg.Closures[ci.key] == nil {
+		return nil
+	}
+	for _, v := range ci.extraVars {
+		val, ok := st.vars[v]
+		if !ok {
+			fx.fail("captured variable %s has no value at the call of %s at %s", v.Name(), ci.key, fx.pos(at))
+		}
+		out = append(out, val)
+	}
+	return out
 }
 
 // evalRecv evaluates the receiver of a method call. A pointer-receiver method called on an
@@ -268,6 +291,7 @@ func (fx *FnCtx) evalCall(st *State, call *ast.CallExpr) []Val {
 	ci := fx.resolveCallee(st, call)
 	recv, back := fx.evalRecv(st, ci)
 	args := fx.evalArgs(st, call, ci.sig)
+	args = append(fx.closureArgs(st, ci, call), args...)
 	outs := fx.applyCall(st, ci, recv, args, call)
 	if back != nil {
 		for _, o := range outs {
@@ -376,6 +400,9 @@ func (fx *FnCtx) builtin(st *State, name string, call *ast.CallExpr) []Val {
 				s.S, s.T, el, r, el, s.T, el, r))
 			st.assume(fmt.Sprintf("(forall ((i Int)) (! (=> (and (<= 0 i) (< i (len_%s %s))) (= (%s %s (+ (len_%s %s) i)) (%s %s i))) :pattern ((%s %s i))))",
 				b.S, b.T, el, r, s.S, s.T, fx.sc.elemFn(b.S), b.T, fx.sc.elemFn(b.S), b.T))
+			// the same fact indexed from the result (so that a goal about elem(r, j) finds it)
+			st.assume(fmt.Sprintf("(forall ((j Int)) (! (=> (and (<= (len_%s %s) j) (< j (len_%s %s))) (= (%s %s j) (%s %s (- j (len_%s %s))))) :pattern ((%s %s j))))",
+				s.S, s.T, s.S, r, el, r, fx.sc.elemFn(b.S), b.T, s.S, s.T, el, r))
 			return []Val{rv}
 		}
 		cur := s
@@ -684,6 +711,12 @@ func (fx *FnCtx) bindDummyParams(env *Env, ci *calleeInfo) {
 		t := ci.sig.Recv().Type()
 		env.named[names[0].Name] = Val{"dummy", fx.sc.SortOf(t), t}
 		i = 1
+	} else if len(ci.extraVars) > 0 && len(names) == len(ci.extraVars)+ci.sig.Params().Len() {
+		// local closure: the read-only captured variables are leading parameters
+		for k, v := range ci.extraVars {
+			env.named[names[k].Name] = Val{"dummy", fx.sc.SortOf(v.Type()), v.Type()}
+		}
+		i = len(ci.extraVars)
 	} else if ci.recvExpr == nil && len(names) > ci.sig.Params().Len() {
 		// func-typed field contract with explicit receiver of the owner: skip
 		i = len(names) - ci.sig.Params().Len()
@@ -883,6 +916,9 @@ func (fx *FnCtx) wantPanicFork() bool {
 func (fx *FnCtx) frameCheckCallee(st *State, t modTarget, at ast.Node) {
 	if fx.fc == nil || fx.lemmaMode {
 		return
+	}
+	if fx.ownCells[t.heap] {
+		return // a local variable of this very function that its closures assign
 	}
 	var disj []string
 	for _, m := range fx.modsEntry {
